@@ -187,6 +187,95 @@ def keyed_fold_tasks(tier, role):
                  role=role, opts={'covers': ['two_keys']}, budget=300)]
 
 
+# ------------------------------------------------------------------------------------ keyed rich_map state
+
+class CountingFn(PyObj):
+    """stateful user function of rich_map: returns (number of calls made on THIS clone, this one included) << 32 | value.
+    Cloning copies the current state, as `Clone` of a closure does."""
+    name = 'VerifCountingFn'
+
+    def __init__(self, calls=0):
+        self.calls = calls
+
+    def clone_model(self, ex=None):
+        return CountingFn(self.calls)
+
+    def trait_call(self, ex, trait, method, args):
+        if trait == 'Clone':
+            return CountingFn(self.calls)
+        if trait in ('Fn', 'FnMut', 'FnOnce'):
+            self.calls += 1
+            tup = args[1].fields[0]                 # ((&K, I),)
+            v = tup.fields[1]
+            lo = ex.binop('BitAnd', v, Int('u64', 0xffffffff))
+            return ex.binop('Add', Int('u64', self.calls << 32), lo)
+        raise Unsupported('CountingFn %s::%s' % (trait, method))
+
+
+def rich_map_harness(w, iters, max_len):
+    """keyed rich_map: one output per input, in order, control elements untouched; the state of the user function is per
+    key: the n-th element of a key (counted from the start of the stream, or - also accepted - from the start of the
+    iteration) is processed by a function that has seen exactly the n-1 earlier elements of that key and no other"""
+    new = w.impls[(None, 'RichMap')]['new'][0]
+    nxt = w.impls[('Operator', 'RichMap')]['next'][0]
+    hlib.check_se_table(w)
+
+    def h(ex):
+        ex.env['hash_order'] = 'any'
+        script = hlib.gen_script(ex, iters, max_len, 'ITW', payload=kv_payload())
+        for e in script:
+            if e.variant in ('Item', 'Timestamped'):
+                ex.assume(z3.ULT(e.fields[0].fields[1].v, 1 << 32))
+        if ex.env.get('native'):
+            out = hlib.native_operator(ex, 'rich_map', [], script, keyed=True)
+        else:
+            op = ex.call_function(new, [hlib.Upstream(script), CountingFn()])
+            out = hlib.drive(ex, nxt, [op], len(script) + 4)
+        sx = lambda: {'script': [repr(e) for e in script], 'output': [repr(e) for e in out]}
+        if [e.variant for e in out] != [e.variant for e in script]:
+            raise Violation('rich_map does not produce exactly one output per input, in order, with the control elements '
+                            'untouched', hlib._wit(ex), sx())
+        seen_stream, seen_iter = [], []
+        mode = None
+        for i, (a, b) in enumerate(zip(script, out)):
+            if a.variant == 'FlushAndRestart':
+                seen_iter = []
+            if a.variant == 'Watermark':
+                check(ex, a.fields[0].v == b.fields[0].v, 'rich_map altered a watermark', sx)
+            if a.variant not in ('Item', 'Timestamped'):
+                continue
+            if a.variant == 'Timestamped':
+                check(ex, a.fields[1].v == b.fields[1].v, 'rich_map altered a timestamp', sx)
+            key, val = a.fields[0].fields
+            check(ex, zbool(ex.binop('Eq', b.fields[0].fields[0], key)), 'rich_map changed the key of an element', sx)
+            n_stream = 1 + sum(1 for k in seen_stream if ex.branch(zbool(ex.binop('Eq', k, key)), 'oracle: same key'))
+            n_iter = 1 + sum(1 for k in seen_iter if ex.branch(zbool(ex.binop('Eq', k, key)), 'oracle: same key (iteration)'))
+            seen_stream.append(key)
+            seen_iter.append(key)
+            got = b.fields[0].fields[1]
+            ok_stream = (got.z() == z3.BitVecVal(n_stream << 32, 64) + val.z())
+            ok_iter = (got.z() == z3.BitVecVal(n_iter << 32, 64) + val.z())
+            cands = [m for m, c in (('stream', ok_stream), ('iteration', ok_iter)) if mode in (None, m) and ex.valid(c)]
+            if not cands:
+                raise Violation('keyed rich_map: element %d of the script was processed by a function whose state is not '
+                                'that of its key (expected call number %d of the key, value in the low bits)' % (i, n_stream),
+                                hlib._wit(ex), sx())
+            if n_stream != n_iter:
+                mode = cands[0] if len(cands) == 1 else mode
+            if n_stream > 1:
+                hlib.cover(ex, 'key_seen_again')
+        return sx()
+    return h
+
+
+def rich_map_tasks(tier, role):
+    it, ln = (2, [3, 2]) if tier == 'quick' else (2, [4, 2])
+    return [Task('rich_map_i%d' % it, 'rich_map_harness', {'iters': it, 'max_len': ln},
+                 bounds='RichMap::next (keyed rich_map) driven to Terminate; upstream: %d iterations x <=%s elements '
+                        '(Item/Timestamped/Watermark), keys symbolic (every equality pattern), values < 2^32; user function = '
+                        'call counter per clone' % (it, ln), role=role, opts={'covers': ['key_seen_again']}, budget=300)]
+
+
 # ------------------------------------------------------------------------------------ windows
 
 class ListAcc(PyObj):
